@@ -126,6 +126,36 @@ theorem create_permission_installs (c : Cfg) (s : State) (k : Key) (sz tid : Nat
     exact (permLoop_installs c s.now k peers a hl).1
   · exact absurd ho (applyUpd_outs_not_resp _ _ _ _ _ _ _ _ _)
 
+theorem hCreatePerm_keep_or_ok (c : Cfg) (s : State) (k : Key) (tid : Nat) (cr : Cred) (peers : List (Option Addr)) :
+    (hCreatePerm c s k tid cr peers).upd = .keep ∨
+    okResp k "CreatePermission" tid ∈ (hCreatePerm c s k tid cr peers).outs := by
+  unfold hCreatePerm
+  split
+  · split
+    · exact Or.inl rfl
+    · split
+      · exact Or.inl rfl
+      · split
+        · exact Or.inl rfl
+        · exact Or.inr (by simp)
+  · exact Or.inl rfl
+
+/-- **a CreatePermission that is not answered with success installs and refreshes nothing** (finding F22: the
+    pinned code installed the peers that preceded the refused one): unless the step emits a success response,
+    the allocation table is exactly what it was -/
+theorem create_permission_error_changes_nothing (c : Cfg) (s : State) (k : Key) (sz tid : Nat) (cr : Cred) (peers : List (Option Addr))
+    (h : ∀ k' me code tid' ra, Out.resp k' me true code tid' ra ∉ (step c s (.msg k sz (.createPerm tid cr peers))).2) :
+    (step c s (.msg k sz (.createPerm tid cr peers))).1.allocs = s.allocs := by
+  simp only [step] at h ⊢
+  split; · rfl
+  split; · rfl
+  rename_i h1 h2
+  rw [if_neg h1, if_neg h2] at h
+  rcases hCreatePerm_keep_or_ok c s k tid cr peers with hk | hok
+  · simp only [handle, hk, applyUpd]
+  · exfalso
+    exact h k "CreatePermission" 0 tid {} (by simp only [handle, List.mem_append]; exact Or.inl hok)
+
 /-- **ChannelBind restarts both timeouts**: after a success response for (n, p) the binding expires
     exactly `chanT` from now and the permission for p's IP exactly `permT` (the *permission* timeout)
     from now -/
